@@ -40,10 +40,29 @@ Ltac oe_auto :=
 Section Decoder.
   Variable U : UData.
   Variable cfg : config.
+  (* the character reader steps over messages: it never returns one *)
+  Lemma take_in_chunk_no_print ch : forall m t, take_in_chunk ch <> Some (Print m, t).
+  Proof.
+    induction ch as [|x ch IH]; intros m t; cbn [take_in_chunk]; [discriminate|].
+    destruct x; try discriminate. apply IH.
+  Qed.
+  Lemma take_first_no_print rest : forall m i, take_first rest <> Some (Print m, i).
+  Proof.
+    induction rest as [|ch rest IH]; intros m i; cbn [take_first]; [discriminate|].
+    destruct (take_in_chunk ch) as [[c t]|] eqn:E; [|apply IH].
+    intros H. inversion H; subst. exact (take_in_chunk_no_print ch m t E).
+  Qed.
+  Lemma take_char_no_print cur rest m i : take_char cur rest <> Some (Print m, i).
+  Proof.
+    unfold take_char. destruct (take_in_chunk cur) as [[c t]|] eqn:E; [|apply take_first_no_print].
+    intros H. inversion H; subst. exact (take_in_chunk_no_print cur m t E).
+  Qed.
+
   Lemma np_next_char : np next_char.
   Proof.
     intros s H. unfold next_char in H.
-    destruct (take_char (in_cur (e_inp s)) (in_rest (e_inp s))) as [[[c|] i]|]; cbn in H; discriminate.
+    destruct (take_char (in_cur (e_inp s)) (in_rest (e_inp s))) as [[[c| |pm] i]|] eqn:E; cbn in H; try discriminate.
+    exact (take_char_no_print _ _ _ _ E).
   Qed.
   Lemma np_poll t : np (poll t). Proof. unfold poll. np_auto. Qed.
   Lemma np_escape_o : np escape_o. Proof. unfold escape_o. np_auto; apply np_next_char. Qed.
@@ -60,7 +79,7 @@ Section Decoder.
   Lemma oe_next_char : oe next_char.
   Proof.
     intros s e s' H. unfold next_char in H.
-    destruct (take_char (in_cur (e_inp s)) (in_rest (e_inp s))) as [[[c|] i]|]; cbn in H; inversion H; auto.
+    destruct (take_char (in_cur (e_inp s)) (in_rest (e_inp s))) as [[[c| |pm] i]|]; cbn in H; inversion H; auto.
   Qed.
   Lemma oe_poll t : oe (poll t). Proof. unfold poll. oe_auto. Qed.
   Lemma oe_escape_o : oe escape_o. Proof. unfold escape_o. oe_auto; apply oe_next_char. Qed.
